@@ -38,6 +38,7 @@ func (in *Inst) watchPlan(n int) WatchPlan {
 		if p.Delay != [2]int64{} {
 			wp.Delay = p.Delay
 		}
+		wp.Pipe = p.Pipe
 		if p.Only < 0 || p.Only == n {
 			wp.Drop = p.Drop
 			wp.CloseAfter = p.CloseAfter
